@@ -237,7 +237,7 @@ pub fn grid_cases(tier: Tier) -> Vec<PuCase> {
     }
     // stableswap
     let amps: Vec<u64> = tier.pick(vec![1, 100, 1_000_000], vec![1, 10, 100, 5000, 1_000_000]);
-    let decsets: Vec<Vec<u8>> = tier.pick(vec![vec![6, 6], vec![6, 18], vec![8, 6], vec![6, 12, 18], vec![6, 6, 6, 6]], vec![vec![6, 6], vec![6, 18], vec![18, 6], vec![8, 6], vec![6, 12], vec![6, 12, 18], vec![6, 6, 6, 6], vec![6, 12, 18, 8]]);
+    let decsets: Vec<Vec<u8>> = tier.pick(vec![vec![6, 6], vec![6, 18], vec![8, 6], vec![6, 12, 18], vec![6, 18, 6], vec![6, 6, 6, 6]], vec![vec![6, 6], vec![6, 18], vec![18, 6], vec![8, 6], vec![6, 12], vec![6, 12, 18], vec![6, 18, 6], vec![6, 6, 6, 6], vec![6, 12, 18, 8]]);
     let mags: Vec<(u128, i32)> = tier.pick(vec![(2, -3), (3, 0), (1, 6), (1, 12)], vec![(2, -3), (5, -1), (3, 0), (100, 0), (1, 6), (1, 9), (1, 12)]);
     let skews = [1u128, 3, 1000];
     for f in &feesets {
@@ -361,7 +361,7 @@ fn eval(w: &mut crate::world::World, case: &PuCase, rec: &mut Rec) -> bool {
 
 pub fn jobs(tier: Tier) -> Vec<Job> {
     let full = PuChecker { name: "c02-pu-full".into(), seeds: vec!["S0", "S1", "S2", "S2r", "S3", "S4", "S6", "S7"], alpha: Alpha::Full, oracles: vec![oracle] };
-    let core = PuChecker { name: "c02-pu-core".into(), seeds: vec!["S2", "S4"], alpha: Alpha::Core, oracles: vec![oracle] };
+    let core = PuChecker { name: "c02-pu-core".into(), seeds: vec!["S2", "S4"], alpha: Alpha::Core, oracles: vec![oracle, oracle_split_coin] };
     vec![
         explore_job(full, tier.pick(2, 3), Caps::default()),
         explore_job(core, tier.pick(3, 4), Caps::default()),
